@@ -841,6 +841,13 @@ check_likelihood(const json& c, const World& w, const Selection& sel, const std:
       to_vec(b, *f_pd);
       to_vec(s_lm, lmobj.get_subset_sensitivity(subset));
       to_vec(s_pd, pdobj.get_subset_sensitivity(subset));
+      if (std::getenv("VERIF_C14_DEBUG"))
+        {
+          std::vector<double> ones(w.bins.size(), 1.);
+          const std::vector<double> sref = P.back(ones);
+          for (std::size_t i = 0; i < s_lm.size(); ++i)
+            std::cerr << "DEBUG sens " << i << " lm " << s_lm[i] << " pd " << s_pd[i] << " ref " << sref[i] << " gradlm " << vlm[i] << " gradpd " << vpd[i] << " gref " << gref[i] << "\n";
+        }
       PROPAGATE(compare_vec(s_lm, s_pd, 1e-4, "list-mode subset sensitivity vs projection-data subset sensitivity " + ctx,
                             "max rel diff LM sensitivity vs projdata sensitivity"));
       // full gradient = data term - sensitivity: tolerance relative to the larger of the two parts
